@@ -23,7 +23,7 @@ META = {
   "OAEP/PSS with the real hash functions and moduli longer than 40 bytes",
   "br_rsa_i62_private beyond the over-long-factor gate (uint64/uint32 type-punned work area: no query finished)",
   "CRT recombination beyond 16-bit moduli (24-bit: no verdict in 900 s); for i15 it is decided only with the alignment case fixed through the hook (both cases), not with the unmodified pointer-value test",
-  "public o private == identity with real arithmetic beyond the 7-bit toy modulus 13*5 (16-bit modulus: no verdict in 10 min), and for i15/i62 at any size (i15 at n=65: no verdict in 900 s)",
+  "public o private == identity with real arithmetic beyond the 7-bit toy modulus 13*5 (16-bit modulus: no verdict in 10 min/900 s); for i15 the pair with br_rsa_i15_public gets no verdict (rsa_i15_pub.c keeps its symbolic alignment test) and is replaced by br_rsa_i15_private(x)^e mod n == x against explicit integer arithmetic at n = 65 and n = 143; i62 not at all",
   "key generation, br_rsa_*_compute_modulus/pubexp/privexp, the pkcs1_sign/vrfy, pss_sign/vrfy, oaep_encrypt/decrypt wrappers as compositions, 'default' implementation selection",
   "constant-time behaviour (C08)",
  ],
@@ -230,8 +230,7 @@ def queries():
             punits = [u for u in units if not u.endswith("rsa_i15_pub.c")]
             for al in (0, 1):
                 for (nm, kd, tier) in (("n65", ["-DC10_P=13", "-DC10_Q=5", "-DC10_NBITS=7", "-DC10_IQ=8", "-DC10_E=5", "-DC10_DP=5", "-DC10_DQ=1"], "quick"),
-                                       ("n143", ["-DC10_P=11", "-DC10_Q=13", "-DC10_NBITS=8", "-DC10_IQ=6", "-DC10_E=7", "-DC10_DP=3", "-DC10_DQ=7"], "quick"),
-                                       ("n60491", ["-DC10_P=241", "-DC10_Q=251", "-DC10_NBITS=16", "-DC10_IQ=217", "-DC10_E=7", "-DC10_DP=103", "-DC10_DQ=143"], "thorough")):
+                                       ("n143", ["-DC10_P=11", "-DC10_Q=13", "-DC10_NBITS=8", "-DC10_IQ=6", "-DC10_E=7", "-DC10_DP=3", "-DC10_DQ=7"], "quick")):   # n = 241*251: no verdict in 900 s
                     qs.append(Q("rsainv-i15-a%d-%s-priv_vs_integer" % (al, nm), "C10_privgate.c", units=punits,
                                 defs=["-DC10_IMPL=15", "-DBR_MAX_RSA_SIZE=64", "-DC10_REAL_MODPOW=1", "-DC10_ORDER=2", "-DBR_VERIF_RSA_I15_ALIGN=%d" % al] + kd,
                                 unwind=34, backend="kissat", tier=tier, timeout=900 if tier == "thorough" else 240,
